@@ -35,6 +35,20 @@ CLAIMED = {
         note=TRUST + "Shapes bounded (legs m<=5/8, sectors n<=3/4); non-integer constructor arguments only by a bounded enumerated check.",
         technique='AST-to-SMT symbolic execution of the real functions against sidecar contracts; z3 with cvc5 fallback; native replay of counter-models',
     ),
+    'C01': dict(
+        category='proof',
+        text=("(A) leg order and block pairing of transpose/moveaxis/add_leg/remove_leg/consume_transpose/diag/tensordot/trace/vdot/add/broadcast "
+              "with fully symbolic metadata (shared obligations with C02). (B) dense VALUES: for an enumerated family of concrete structures over "
+              "all seven symmetries (sector subsets incl. sectors present in one operand only and empty results, lazy permutations, three "
+              "contraction policies) block data are vectors of symbolic reals; the real operation runs through the real NumPy backend kernels "
+              "(interpreted on object arrays), is embedded by the real to_numpy/to_nonsymmetric, and every dense element is proved equal, as a "
+              "polynomial identity in the data, to what NumPy gives on the embedded operands: add, sub, scalar multiple, conj, transpose, moveaxis, "
+              "add_leg/remove_leg, tensordot (incl. outer product, full contraction, diagonal operand), vdot, trace, broadcast, diag, hard/meta "
+              "fuse+unfuse (norm and values), and blocks+get_legs re-assemble to_numpy."),
+        design_ref='DESIGN.md §5 C01',
+        note=TRUST + "Part B is complete in the data but bounded in structure (enumerated concrete charges/dimensions); floats treated as reals; complex dtypes, ncon/einsum and apply_mask values not covered.",
+        technique='symbolic execution of the real metadata code AND the real NumPy kernels on symbolic real data; polynomial identities discharged by z3 simplification/NRA',
+    ),
     'C02': dict(
         category='proof',
         text=("Representation invariant wf(tensor) (blocks unique and sorted, selection rule under the group law, per-leg dimension "
